@@ -141,8 +141,9 @@ REJECTED_THEN_USE = [
                                          "gs.mp.psi(2,ket)"]),
 ]
 
-PANEL = ["m.mp.pp.isr_matrix_block(1,ph,ph,ia,jb)", "m.mp.ip.isr_matrix_block(1,h,h,i,j)",
-         "gs.mp.energy(2)", "isr.mp.ea.precursor(1,p,ket,a)", "prop.mp.pp.trans_moment(1)",
+PANEL = ["m.mp.pp.isr_matrix_block(1,ph,ph,ia,jb)", "gs.mp.expand_norm_factor(6)",
+         "isr.mp.pp.expand_S_taylor(6)", "isr.mp.ea.precursor(1,p,ket,a)",
+         "m.mp.ip.isr_matrix_block(1,h,h,i,j)", "gs.mp.energy(2)", "prop.mp.pp.trans_moment(1)",
          "gs.re.energy(1)", "expr.factor_intermediates(t2_1x,t2_1)",
          "gs.mp.expectation_value(1,1)", "isr.mp.pp.overlap_precursor(1,ph,ph,ia,jb)",
          "m.mp.ea.mvp_block_order(1,p,p,p,a)", "itmd.t1_2.expand_itmd(jb,once)",
@@ -165,11 +166,12 @@ ABORT_SWEEP = [
 ]
 
 
-def abort_sweep_jobs(ref, env, seed, points, targets, mode="state"):
+def abort_sweep_jobs(ref, env, seed, points, targets, mode="state", by_line=False):
     probes = []
     for tid, _ in targets:
         st = {"op": "req", "t": tid, "abort": {"kind": "kbi", "k": 10 ** 9}}
         probes.append({"kind": "c19", "seed": seed, "run": f"abort-probe-{tid}", "env": env,
+                       "want_first_hits": by_line,
                        "params": dict(DEFAULT_PARAMS, abort_mode=mode, faultfree=False),
                        "steps": [st], "ref": ref_for(ref, [st]), "timeout": 900})
     res = host.run_jobs(probes)
@@ -180,7 +182,13 @@ def abort_sweep_jobs(ref, env, seed, points, targets, mode="state"):
                                f"{str(r.get('harness_error'))[-500:]}")
         n = r["stats"]["abort_n"][0]
         rng = derive(seed, "c19", "abort-sweep", tid)
-        if n <= points:
+        if by_line:
+            hits = (r["stats"].get("abort_first_hits") or [[]])[0]
+            if len(hits) > points:
+                off = rng.randrange(max(1, len(hits) // points))
+                hits = hits[off::max(1, len(hits) // points)][:points]
+            ks = hits
+        elif n <= points:
             ks = list(range(1, n + 1))
         else:  # evenly spread, jittered by the seed
             ks = sorted({1 + min(n - 1, int((i + rng.random()) * n / points))
@@ -189,12 +197,29 @@ def abort_sweep_jobs(ref, env, seed, points, targets, mode="state"):
             kind = "mem" if k % 4 == 0 else "kbi"
             steps = [{"op": "req", "t": tid, "abort": {"kind": kind, "k": k}}]
             steps += [{"op": "req", "t": f} for f in follow if f in ref]
-            jobs.append({"kind": "c19", "seed": seed, "run": f"abort-{tid}-{k}", "env": env,
+            jobs.append({"kind": "c19", "seed": seed,
+                         "run": f"abort-{'line-' if by_line else ''}{tid}-{k}", "env": env,
                          "params": dict(DEFAULT_PARAMS, abort_mode=mode, faultfree=False,
                                         shared=bool(k % 2)),
                          "steps": steps, "ref": ref_for(ref, steps), "timeout": 900})
     return jobs
 
+
+LINE_SWEEP = [
+    ("gs.mp.energy(1)", ["gs.mp.energy(2)", "gs.mp.amplitude(1,ph,ia)", "gs.re.energy(1)"]),
+    ("expr.factor_intermediates(t2_1x,t2_1)",
+     ["expr.factor_intermediates(mp2,all)", "expr.simplify(alpha3)"]),
+    ("isr.mp.pp.overlap_precursor(1,ph,ph,ia,jb)",
+     ["isr.mp.pp.s_root(1,ph,ph,ia,jb)", "m.mp.pp.isr_matrix_block(1,ph,ph,ia,jb)"]),
+    ("expr.simplify(big_simplify,real)", ["expr.simplify(alpha2)",
+                                          "expr.shared.simplify(retarget,targets=a)"]),
+    ("expr.spatial(spin1,restricted)", ["expr.spatial(spin2,restricted)",
+                                        "itmd.t2_1.allowed_spin_blocks"]),
+    ("code.generate_code(contr2,einsum)", ["code.generate_code(code3,einsum)"]),
+    ("expr.reduce_expr(t1_2_once)", ["expr.reduce_expr(p0_2_mix)"]),
+    ("prop.mp.pp.trans_moment(1)", ["prop.mp.ip.trans_moment(1)",
+                                    "m.mp.pp.isr_matrix_block(1,ph,ph,ia,jb)"]),
+]
 
 TWINS = [
     ("gs.mp.expectation_value(2,1)", "gs.mp.expectation_value(1,2)"),
@@ -320,7 +345,7 @@ def run(tier, seed):
     # process-level state - a memo table, a mutated default - shows up in the panel)
     panel = [t for t in PANEL if t in ref]
     if not thorough:
-        panel = panel[:4]
+        panel = panel[:5]
     for n, tid in enumerate(tids):
         if cat.BY_ID[tid]["cost"] > (8 if thorough else 3):
             continue
@@ -382,6 +407,17 @@ def run(tier, seed):
     try:
         jobs = abort_sweep_jobs(ref, pool[0], seed, points=120 if thorough else 10,
                                 targets=ABORT_SWEEP if thorough else ABORT_SWEEP[:4])
+    except RuntimeError as exc:
+        log(f"HARNESS-ERROR {exc}")
+        return 2
+    # the same over every distinct source line a cheap request executes anywhere in adcgen
+    # (first execution of each line): a window between two statements of *any* function -
+    # state that is modified temporarily and restored without try/finally - is hit at least
+    # once per line, not with the probability of a random event
+    try:
+        jobs += abort_sweep_jobs(ref, pool[0], seed, points=400 if thorough else 24,
+                                 targets=LINE_SWEEP if thorough else LINE_SWEEP[:3],
+                                 mode="global", by_line=True)
     except RuntimeError as exc:
         log(f"HARNESS-ERROR {exc}")
         return 2
